@@ -82,10 +82,12 @@ static int waIsWiped(const unsigned char* p, size_t n)
 	return 1;
 }
 
+/* constant fill (zeros or any other single octet): an overwrite by memset-like code is a wipe too,
+   whatever pattern memWipe happens to use */
 static int waIsZero(const unsigned char* p, size_t n)
 {
 	size_t i;
-	for (i = 0; i < n; ++i) if (p[i]) return 0;
+	for (i = 1; i < n; ++i) if (p[i] != p[0]) return 0;
 	return 1;
 }
 
